@@ -33,6 +33,10 @@ pub const NATIVE2: &[(&str, &str)] = &[
     // an adaptor chain unpacked into call arguments (`f xs...`)
     ("C_UNPACK", "SINK2((a..=a + 1).each(|x| f(x))...)"),
     ("C_UNPACKGEN", "SINK2(UNPACKGEN(f, a)...)"),
+    // a persistent container grown element by element by a callback that may fail half-way:
+    // what was produced before the failure stays, nothing else (the model calls f(a) twice and
+    // appends the results to the global list)
+    ("C_RESIZEGL", "GL.resize_with((size GL) + 2, || f(a))"),
 ];
 
 #[derive(Clone, Copy, Debug, PartialEq, Eq, Hash)]
@@ -2094,7 +2098,12 @@ pub fn print(p: &Program, opts: &PrintOpts) -> Printed {
         lambda_call_line: pr.lambda_call_line.clone(),
         gay_line,
         apply_line,
-        source: pr.out.join("\n") + "\n",
+        // (C12 layout noise, a quarter of the noisy layouts: CR LF line ends)
+        source: if opts.noise_seed.is_some_and(|n| (n >> 23) % 4 == 1) {
+            pr.out.join("\r\n") + "\r\n"
+        } else {
+            pr.out.join("\n") + "\n"
+        },
         tick_line: pr.tick_line,
         call_line: pr.call_line,
         stmt_line: pr.stmt_line,
